@@ -94,7 +94,8 @@ type c03Msg struct {
 	V string `json:"v"` // label of the block (data id), "nil"
 	S int    `json:"s"` // signer 1..4
 
-	hash string // block hash (target of a vote / hash of a proposed header)
+	forged bool // signed by the Byzantine key in another validator's name (never enters the pool)
+	hash   string // block hash (target of a vote / hash of a proposed header)
 	ph   tmconsensus.ProposedHeader
 	sig  gcrypto.SparseSignature
 }
@@ -215,6 +216,8 @@ func (s *c03Strategy) EnterRound(ctx context.Context, rv tmconsensus.RoundView, 
 	s.mu.Lock()
 	s.curH, s.curR = rv.Height, rv.Round
 	s.resetForHeight(rv.Height)
+	// the strategy keeps no memory of its answers: entering a round (again, after a restart) it answers again
+	delete(s.answered, fmt.Sprintf("%d/%d", rv.Height, rv.Round))
 	for _, ph := range rv.ProposedHeaders {
 		s.dataOf[string(ph.Header.Hash)] = string(ph.Header.DataID)
 	}
@@ -809,6 +812,35 @@ func (c *c03Cluster) inject(kind string, h uint64, r uint32, label string) (*c03
 	return m, true
 }
 
+// forge creates a vote that claims to be from validator `as` but is signed with the Byzantine key (a real
+// signature over the right sign bytes by the wrong key).  An engine that verifies signatures rejects it.
+func (c *c03Cluster) forge(kind string, h uint64, r uint32, label string, as int) (*c03Msg, bool) {
+	hash, ok := c.hashOf(h, label)
+	if !ok || kind == "prop" {
+		return nil, false
+	}
+	vt := tmconsensus.VoteTarget{Height: h, Round: r, BlockHash: hash}
+	var sb []byte
+	var err error
+	if kind == "pv" {
+		sb, err = tmconsensus.PrevoteSignBytes(vt, c.w.ss)
+	} else {
+		sb, err = tmconsensus.PrecommitSignBytes(vt, c.w.ss)
+	}
+	if err != nil {
+		panic(err)
+	}
+	sig, err := c.w.pv[c03Byz-1].Signer.Sign(context.Background(), sb)
+	if err != nil {
+		panic(err)
+	}
+	kid := make([]byte, 2)
+	binary.BigEndian.PutUint16(kid, uint16(as-1))
+	m := &c03Msg{K: kind, H: h, R: r, V: label, S: as, hash: hash, sig: gcrypto.SparseSignature{KeyID: kid, Sig: sig}, forged: true}
+	c.out.ev(vc.M{"ev": "forge", "m": m.js()})
+	return m, true
+}
+
 // find looks a message up by its abstract coordinates.
 func (c *c03Cluster) find(kind string, h uint64, r uint32, label string, s int) (*c03Msg, bool) {
 	hash, ok := c.hashOf(h, label)
@@ -826,6 +858,9 @@ func (c *c03Cluster) find(kind string, h uint64, r uint32, label string, s int) 
 func (c *c03Cluster) deliver(idx int, m *c03Msg) string {
 	n := c.nodes[idx-1]
 	ev := vc.M{"ev": "deliver", "n": idx, "m": m.js()}
+	if m.forged {
+		ev["forged"] = true
+	}
 	if m.K == "prop" && m.H > 1 {
 		// the header carries precommits of the previous height: the node learns them too
 		pc := []vc.M{}
@@ -853,10 +888,64 @@ func (c *c03Cluster) deliver(idx int, m *c03Msg) string {
 			Proofs: map[string][]gcrypto.SparseSignature{m.hash: {m.sig}}}).String()
 	}
 	c03Bump()
-	c.mu.Lock()
-	c.delivered[idx-1][m.key()]++
-	c.mu.Unlock()
+	if !m.forged {
+		c.mu.Lock()
+		c.delivered[idx-1][m.key()]++
+		c.mu.Unlock()
+	}
 	return res
+}
+
+// sync runs a benign schedule (every pool message to every node, timers only when nothing is left to
+// deliver) until every node has finalized height h; false when that does not happen within the budget.
+func (c *c03Cluster) sync(h uint64, bound time.Duration) bool {
+	for iter := 0; iter < 400; iter++ {
+		done := true
+		for _, n := range c.nodes {
+			n.mu.Lock()
+			if uint64(len(n.fins)) < h {
+				done = false
+			}
+			n.mu.Unlock()
+		}
+		if done {
+			return true
+		}
+		type pend struct {
+			n int
+			m *c03Msg
+		}
+		var todo []pend
+		c.mu.Lock()
+		for _, k := range c.order {
+			m := c.pool[k]
+			for n := 1; n <= 3; n++ {
+				if m.S != n && c.delivered[n-1][k] == 0 {
+					todo = append(todo, pend{n, m})
+				}
+			}
+		}
+		c.mu.Unlock()
+		if len(todo) > 0 {
+			for _, p := range todo {
+				c.deliver(p.n, p.m)
+			}
+		} else {
+			fired := false
+			for _, n := range c.nodes {
+				if _, ok := c.timeout(n.idx); ok {
+					fired = true
+				}
+			}
+			if !fired {
+				return false
+			}
+		}
+		if !c03Settle(bound) {
+			return false
+		}
+	}
+	return false
 }
 
 func (c *c03Cluster) timeout(idx int) (string, bool) {
@@ -875,6 +964,75 @@ func (c *c03Cluster) restart(idx int) error {
 	n.stop()
 	n.restarts++
 	return n.start()
+}
+
+// restartSafe reports whether restarting node idx now would run into one of the start-up panics that are
+// C09's business (round entrance for an orphaned round; a view that implies the prevote or precommit delay
+// step).  The adversary steers around them to reach deeper states; a death would only abort the run.
+func (c *c03Cluster) restartSafe(idx int) bool {
+	n := c.nodes[idx-1]
+	ctx := context.Background()
+	mh, mr, _, _, err := n.ms.NetworkHeightRound(ctx)
+	if err != nil {
+		return true
+	}
+	sh, sr, err := n.ss.StateMachineHeightRound(ctx)
+	if err != nil {
+		sh, sr = 1, 0
+	}
+	if _, _, _, _, err := n.fs.LoadFinalizationByHeight(ctx, sh); err == nil {
+		sh, sr = sh+1, 0
+	}
+	if sh == mh && sr < mr {
+		return false
+	}
+	if sh > mh || (sh == mh && sr > mr+1) {
+		return false
+	}
+	pow := map[string]map[string]map[int]bool{"pv": {}, "pc": {}}
+	c.mu.Lock()
+	for k, m := range c.pool {
+		if m.K == "prop" || m.H != sh || m.R != sr {
+			continue
+		}
+		if m.S != idx && c.delivered[idx-1][k] == 0 {
+			continue
+		}
+		if pow[m.K][m.hash] == nil {
+			pow[m.K][m.hash] = map[int]bool{}
+		}
+		pow[m.K][m.hash][m.S] = true
+	}
+	c.mu.Unlock()
+	sum := func(kind string) (total, best uint64) {
+		all := map[int]bool{}
+		for _, signers := range pow[kind] {
+			var p uint64
+			for s := range signers {
+				p += c.w.powers[s-1]
+				all[s] = true
+			}
+			if p > best {
+				best = p
+			}
+		}
+		for s := range all {
+			total += c.w.powers[s-1]
+		}
+		return
+	}
+	pcT, pcB := sum("pc")
+	pvT, pvB := sum("pv")
+	if c.w.isMaj(pcT) {
+		return c.w.isMaj(pcB)
+	}
+	if 3*pcT >= c.w.total {
+		return true
+	}
+	if c.w.isMaj(pvT) {
+		return c.w.isMaj(pvB)
+	}
+	return true
 }
 
 // ---- observation
@@ -1025,6 +1183,7 @@ type c03Step struct {
 	Op string          `json:"op"` // deliver | timeout | restart
 	N  int             `json:"n"`
 	Ms []*c03Msg       `json:"ms,omitempty"` // deliver: the batch, handed over one message at a time in this order
+	H  uint64          `json:"h,omitempty"`  // sync: run a benign schedule until every node has finalized height H
 	E  json.RawMessage `json:"exp,omitempty"` // expected per-node observation (array of 3) after the step
 }
 
@@ -1035,6 +1194,10 @@ type c03Behaviour struct {
 	MaxH   uint64    `json:"maxH"`
 	MaxR   uint32    `json:"maxR"`
 	Steps  []c03Step `json:"steps"`
+	// Propose: the correct nodes' strategy proposes blocks itself (round-robin) -- needed for "sync" steps
+	Propose bool `json:"propose,omitempty"`
+	// Forge: attack schedules of the model variant in which signatures are not checked
+	Forge bool `json:"forge,omitempty"`
 }
 
 func c03Diff(exp, got c03Obs) []string {
@@ -1096,7 +1259,7 @@ func (r *c03Runner) replay(b c03Behaviour) {
 	r.out.mu.Unlock()
 	r.out.prog("run %d", b.ID)
 	r.out.ev(vc.M{"ev": "reset", "powers": powers})
-	c, err := newC03Cluster(newC03World(powers), r.out, false)
+	c, err := newC03Cluster(newC03World(powers), r.out, b.Propose)
 	if err != nil {
 		r.out.out.Emit(vc.M{"kind": "inconclusive", "run": b.ID, "why": "cluster start: " + err.Error()})
 		return
@@ -1106,6 +1269,7 @@ func (r *c03Runner) replay(b c03Behaviour) {
 	if !c03Settle(r.settle) {
 		status = "unsettled"
 	}
+	emitObs := os.Getenv("VERIF_OBS") != ""
 	var sched []vc.M
 	done := 0
 	skipped := 0
@@ -1129,11 +1293,14 @@ func (r *c03Runner) replay(b c03Behaviour) {
 					m, ok = c.inject(sm.K, sm.H, sm.R, sm.V)
 				} else {
 					m, ok = c.find(sm.K, sm.H, sm.R, sm.V, sm.S)
-					for try := 0; !ok && try < 15; try++ {
+					for try := 0; !ok && try < 15 && b.Class != "attack"; try++ {
 						// the sender's gossip may not have emitted it yet
 						time.Sleep(10 * time.Millisecond)
 						c03Settle(r.settle)
 						m, ok = c.find(sm.K, sm.H, sm.R, sm.V, sm.S)
+					}
+					if !ok && b.Class == "attack" && b.Forge {
+						m, ok = c.forge(sm.K, sm.H, sm.R, sm.V, sm.S)
 					}
 				}
 				if !ok {
@@ -1156,6 +1323,11 @@ func (r *c03Runner) replay(b c03Behaviour) {
 				r.out.out.Emit(vc.M{"kind": "inconclusive", "run": b.ID, "why": "restart: " + err.Error()})
 				status = "unsettled"
 			}
+		case "sync":
+			rec["h"] = st.H
+			if !c.sync(st.H, r.settle) {
+				okStep = false
+			}
 		}
 		r.ops[st.Op]++
 		if !okStep {
@@ -1177,6 +1349,10 @@ func (r *c03Runner) replay(b c03Behaviour) {
 			break
 		}
 		r.note(c)
+		if emitObs {
+			r.out.out.Emit(vc.M{"kind": "obs", "run": b.ID, "step": i, "op": st.Op, "n": st.N,
+				"nodes": []c03Obs{c.observe(1, b.MaxH, b.MaxR), c.observe(2, b.MaxH, b.MaxR), c.observe(3, b.MaxH, b.MaxR)}})
+		}
 		if r.report(c, b.ID, b.Class, sched) {
 			status = "violation"
 			break
@@ -1184,12 +1360,21 @@ func (r *c03Runner) replay(b c03Behaviour) {
 		if len(st.E) > 0 && firstDiff == nil {
 			var exp []c03Obs
 			if err := json.Unmarshal(st.E, &exp); err == nil && len(exp) == 3 {
-				for n := 1; n <= 3; n++ {
-					got := c.observe(n, b.MaxH, b.MaxR)
-					if d := c03Diff(exp[n-1], got); len(d) > 0 {
-						firstDiff = vc.M{"step": i, "op": st.Op, "n": st.N, "node": n, "diff": d}
+				for try := 0; try < 12; try++ {
+					firstDiff = nil
+					for n := 1; n <= 3; n++ {
+						got := c.observe(n, b.MaxH, b.MaxR)
+						if d := c03Diff(exp[n-1], got); len(d) > 0 {
+							firstDiff = vc.M{"step": i, "op": st.Op, "n": st.N, "node": n, "diff": d}
+							break
+						}
+					}
+					if firstDiff == nil {
 						break
 					}
+					// not quiescent after all?  A real divergence is still there after waiting.
+					time.Sleep(time.Duration(2+4*try) * time.Millisecond)
+					c03Settle(r.settle)
 				}
 				if firstDiff != nil && b.Class != "attack" {
 					status = "diverged"
@@ -1350,6 +1535,19 @@ func (r *c03Runner) random(run int, seed int64, maxSteps int, maxH uint64, power
 			}
 		}
 
+		var safePC []int
+		for _, n := range justPC {
+			if c.restartSafe(n) {
+				safePC = append(safePC, n)
+			}
+		}
+		justPC = safePC
+		var safeAny []int
+		for n := 1; n <= 3; n++ {
+			if c.restartSafe(n) {
+				safeAny = append(safeAny, n)
+			}
+		}
 		if pol.eagerRestart && restartsLeft > 0 && len(justPC) > 0 && rng.Intn(2) == 0 {
 			n := justPC[rng.Intn(len(justPC))]
 			r.out.prog("step %d %d restart %d", run, steps, n)
@@ -1370,7 +1568,7 @@ func (r *c03Runner) random(run int, seed int64, maxSteps int, maxH uint64, power
 			if len(armed) == 0 {
 				wT = 0
 			}
-			if restartsLeft <= 0 {
+			if restartsLeft <= 0 || len(safeAny) == 0 {
 				wR = 0
 			}
 			if len(dups) == 0 {
@@ -1440,7 +1638,7 @@ func (r *c03Runner) random(run int, seed int64, maxSteps int, maxH uint64, power
 					sched = append(sched, vc.M{"op": "inject", "m": m.js()})
 				}
 			case x < wD+wT+wI+wR:
-				n := 1 + rng.Intn(3)
+				n := safeAny[rng.Intn(len(safeAny))]
 				r.out.prog("step %d %d restart %d", run, steps, n)
 				restartsLeft--
 				r.ops["restart"]++
@@ -1482,6 +1680,196 @@ func (r *c03Runner) random(run int, seed int64, maxSteps int, maxH uint64, power
 		}
 	}
 	r.out.out.Emit(vc.M{"kind": "run", "run": run, "class": pol.name, "steps": steps, "status": status, "fin": fins, "heights": maxFin})
+	r.out.out.Flush()
+}
+
+// ---- scripted attacks: the schedules that break an engine whose commit rule is weaker than > 2/3 of the
+// power for one block in one round, or that accepts votes it cannot verify.  On the unmodified engine they
+// end without any disagreement.
+
+type c03Script struct {
+	r     *c03Runner
+	c     *c03Cluster
+	run   int
+	sched []vc.M
+	ok    bool
+}
+
+func (x *c03Script) settle() {
+	if !c03Settle(x.r.settle) {
+		x.ok = false
+	}
+}
+
+// dl delivers the message (kind, round, label, signer) of height 1 to node n; Byzantine messages are created
+// on demand, messages of correct validators have to be in the pool (the node has to have sent them).
+func (x *c03Script) dl(n int, kind string, r uint32, label string, signer int) bool {
+	if !x.ok {
+		return false
+	}
+	var m *c03Msg
+	var ok bool
+	if signer == c03Byz {
+		m, ok = x.c.inject(kind, 1, r, label)
+	} else if signer < 0 {
+		m, ok = x.c.forge(kind, 1, r, label, -signer)
+	} else {
+		m, ok = x.c.find(kind, 1, r, label, signer)
+		for try := 0; !ok && try < 10; try++ {
+			time.Sleep(5 * time.Millisecond)
+			c03Settle(x.r.settle)
+			m, ok = x.c.find(kind, 1, r, label, signer)
+		}
+	}
+	if !ok {
+		return false
+	}
+	x.r.out.prog("step %d %d deliver %d %s", x.run, len(x.sched), n, m.key())
+	res := x.c.deliver(n, m)
+	x.r.ops["deliver"]++
+	rec := vc.M{"op": "deliver", "n": n, "m": m.js(), "res": res}
+	if m.forged {
+		rec["forged"] = true
+		x.r.ops["forge"]++
+	}
+	x.sched = append(x.sched, rec)
+	x.settle()
+	x.check()
+	return true
+}
+
+func (x *c03Script) fire(n int, want string) bool {
+	if !x.ok || x.c.nodes[n-1].timer.current() != want {
+		return false
+	}
+	x.r.out.prog("step %d %d timeout %d", x.run, len(x.sched), n)
+	t, ok := x.c.timeout(n)
+	if ok {
+		x.r.ops["timeout"]++
+		x.sched = append(x.sched, vc.M{"op": "timeout", "n": n, "t": t})
+		x.settle()
+		x.check()
+	}
+	return ok
+}
+
+func (x *c03Script) check() {
+	x.r.note(x.c)
+	if x.r.report(x.c, x.run, "script", x.sched) {
+		x.ok = false
+	}
+}
+
+// ownVote returns the label node n recorded for (kind, round) at height 1 ("" = none).
+func (x *c03Script) ownVote(n int, kind string, r uint32) string {
+	ra, err := x.c.nodes[n-1].as.LoadActions(context.Background(), 1, r)
+	if err != nil {
+		return ""
+	}
+	if kind == "pv" && ra.PrevoteSignature != "" {
+		return x.c.label(ra.PrevoteTarget)
+	}
+	if kind == "pc" && ra.PrecommitSignature != "" {
+		return x.c.label(ra.PrecommitTarget)
+	}
+	return ""
+}
+
+func (r *c03Runner) scripted(run int, seed int64, powers []uint64) {
+	rng := rand.New(rand.NewSource(seed*7919 + int64(run)))
+	perm := rng.Perm(3)
+	v, h, t := perm[0]+1, perm[1]+1, perm[2]+1 // victim, helper, third
+	X, Y := "A", "B"
+	if rng.Intn(2) == 0 {
+		X, Y = "B", "A"
+	}
+	kind := []string{"lonelock", "lonelock", "forge"}[rng.Intn(3)]
+	r.out.mu.Lock()
+	r.out.run = run
+	r.out.mu.Unlock()
+	r.out.prog("run %d script-%s", run, kind)
+	r.out.ev(vc.M{"ev": "reset", "powers": powers})
+	c, err := newC03Cluster(newC03World(powers), r.out, false)
+	if err != nil {
+		r.out.out.Emit(vc.M{"kind": "inconclusive", "run": run, "why": "cluster start: " + err.Error()})
+		return
+	}
+	defer c.stop()
+	x := &c03Script{r: r, c: c, run: run, ok: true}
+	x.settle()
+	switch kind {
+	case "forge":
+		// votes in the name of correct validators, signed with the Byzantine key: one certificate for X at the
+		// victim, one for Y at the others
+		for _, n := range []int{v, h, t} {
+			val := Y
+			if n == v {
+				val = X
+			}
+			x.dl(n, "prop", 0, val, c03Byz)
+			for _, kd := range []string{"pv", "pc"} {
+				for s := 1; s <= 3; s++ {
+					if s != n {
+						x.dl(n, kd, 0, val, -s)
+					}
+				}
+				x.dl(n, kd, 0, val, c03Byz)
+			}
+		}
+	default:
+		// round 0: the victim alone sees a prevote quorum for X and precommits it; the Byzantine validator adds
+		// its precommit; the others time out and precommit nil; round 1: the others commit Y
+		x.dl(v, "prop", 0, X, c03Byz)
+		x.dl(h, "prop", 0, X, c03Byz)
+		x.fire(t, "Proposal")
+		x.dl(v, "pv", 0, X, h)
+		x.dl(v, "pv", 0, X, c03Byz)
+		x.dl(v, "pc", 0, X, c03Byz)
+		// the helper and the third see a split vote and give up on the round
+		x.dl(h, "pv", 0, "nil", t)
+		x.dl(h, "pv", 0, Y, c03Byz)
+		x.fire(h, "PrevoteDelay")
+		x.dl(t, "pv", 0, X, h)
+		x.dl(t, "pv", 0, Y, c03Byz)
+		x.fire(t, "PrevoteDelay")
+		pcH, pcT := x.ownVote(h, "pc", 0), x.ownVote(t, "pc", 0)
+		if pcH != "" && pcT != "" {
+			// the victim also learns the nil precommits (an engine that adds up all precommits commits X now)
+			x.dl(v, "pc", 0, pcT, t)
+			x.dl(h, "pc", 0, pcT, t)
+			x.dl(h, "pc", 0, "nil", c03Byz)
+			x.dl(t, "pc", 0, pcH, h)
+			x.dl(t, "pc", 0, "nil", c03Byz)
+			x.dl(v, "pc", 0, pcH, h)
+			// round 1
+			x.dl(h, "prop", 1, Y, c03Byz)
+			x.dl(t, "prop", 1, Y, c03Byz)
+			pvH, pvT := x.ownVote(h, "pv", 1), x.ownVote(t, "pv", 1)
+			if pvH != "" && pvT != "" {
+				x.dl(h, "pv", 1, pvT, t)
+				x.dl(h, "pv", 1, Y, c03Byz)
+				x.dl(t, "pv", 1, pvH, h)
+				x.dl(t, "pv", 1, Y, c03Byz)
+				if pc := x.ownVote(t, "pc", 1); pc != "" {
+					x.dl(h, "pc", 1, pc, t)
+				}
+				x.dl(h, "pc", 1, Y, c03Byz)
+				if pc := x.ownVote(h, "pc", 1); pc != "" {
+					x.dl(t, "pc", 1, pc, h)
+				}
+				x.dl(t, "pc", 1, Y, c03Byz)
+			}
+		}
+	}
+	fins := vc.M{}
+	for _, n := range c.nodes {
+		fins[fmt.Sprint(n.idx)] = c.observe(n.idx, 1, 1).Fin
+	}
+	status := "ok"
+	if !x.ok {
+		status = "stopped"
+	}
+	r.out.out.Emit(vc.M{"kind": "run", "run": run, "class": "script-" + kind, "steps": len(x.sched), "status": status, "fin": fins})
 	r.out.out.Flush()
 }
 
@@ -1533,6 +1921,12 @@ func TestVerifC03Cluster(t *testing.T) {
 				powers = []uint64{2, 1, 1, 1}
 			}
 			out.tracing = nRuns < traceRuns
+			if i%10 == 9 || os.Getenv("VERIF_ONLY_SCRIPT") != "" {
+				r.scripted(i, seed, []uint64{1, 1, 1, 1})
+				out.trace.Flush()
+				nRuns++
+				continue
+			}
 			r.random(i, seed, maxSteps, maxH, powers)
 			out.trace.Flush()
 			nRuns++
